@@ -70,6 +70,8 @@ func expandToken(tx plugintypes.TransactionState, token macroToken) string {
 		return token.text
 	}
 	switch col := tx.Collection(token.variable).(type) {
+	case nil:
+		// some variables (e.g. JSON) have no collection behind them: nothing to expand
 	case collection.Keyed:
 		if c := col.Get(token.key); len(c) > 0 {
 			return c[0]
